@@ -71,7 +71,7 @@ func (env *e3Env) runEscalating(cfg absint.Config, fn *ssa.Function, setup func(
 	// keeps a failing tree from costing tens of minutes): no new attempt once the check
 	// has run for escLimit, and each attempt has its own deadline, after which it counts
 	// as not better than the run before.
-	escLimit, escRun := 240*time.Second, 180*time.Second
+	escLimit, escRun := 120*time.Second, 120*time.Second
 	if env.c.Tier == "thorough" {
 		escLimit, escRun = 1200*time.Second, 900*time.Second
 	}
